@@ -42,6 +42,8 @@ Spec == Init /\ [][Next]_vars
 IneqFeasible == phase = "ineq" => FeasibleIneq(ProjIneqV(u))
 IneqIdempotent == phase = "ineq" => ProjIneqV(ProjIneqV(u)) = ProjIneqV(u)
 IneqFixedIffFeasible == phase = "ineq" => ((ProjIneqV(u) = u) <=> FeasibleIneq(u))
+\* clipping is positively homogeneous (the feasible set is a cone): the binding replays scaled inputs with non-default tolerances
+IneqHomogeneous == phase = "ineq" => \A c \in {R(1, 1000), RI(100)} : ProjIneqV(VScale(c, u)) = VScale(c, ProjIneqV(u))
 IneqNearest == phase = "ineq" =>
     \A z \in {w \in [1..Len(u) -> GridVals] : FeasibleIneq(w)} : VI(u, ProjIneqV(u), z)
 
